@@ -1,5 +1,144 @@
-"""Kani shim-crate units (module-verbatim inclusion of /repo files); see DESIGN 2.1."""
+"""Kani shim-crate units: /repo files are compiled *verbatim* (module-level `#[path]` inclusion of a
+scratch copy of the repo's src tree) against light shims that carry the contracts of the
+environment.  See DESIGN.md 2.1 / 2.3.
+
+Unit directory layout (under /verif/kani/<unit>/):
+  Cargo.toml, lib.rs (+ further .rs files); the string @REPO@ is replaced by the scratch copy of
+  <repo>/src; @SHIMS@ by /verif/kani/shims.  Lines of the form
+      //@ REWRITE <relative path in repo src> AS <new file name> : <from> => <to> [; <from> => <to>]*
+  produce a token-level rewritten copy (rule R9: `std::fs::` => `crate::vfs::`) next to lib.rs.
+"""
+import json
+import os
+import re
+import shutil
+import subprocess
+import time
 
 
-def run_kani_unit(uname, ucfg, repo, scratch, here, tier):
-    return {"unit": uname, "engine": "kani", "status": "undecided", "harnesses": [], "errors": [{"kind": "error", "message": "kani units not built yet"}], "wall_s": 0.0}
+def sh(cmd, cwd, timeout, env=None):
+    t0 = time.time()
+    try:
+        p = subprocess.run(cmd, cwd=cwd, capture_output=True, text=True, timeout=timeout, env=env)
+        return p.returncode, p.stdout + p.stderr, time.time() - t0
+    except subprocess.TimeoutExpired as e:
+        out = (e.stdout or b"")
+        if isinstance(out, bytes):
+            out = out.decode(errors="replace")
+        return 124, out + "\nTIMEOUT", time.time() - t0
+
+
+def prepare(uname, ucfg, repo, scratch, here):
+    src = os.path.join(here, ucfg["dir"])
+    dst = os.path.join(scratch, uname)
+    shutil.copytree(src, dst)
+    reposrc = os.path.join(scratch, "reposrc")
+    if not os.path.isdir(reposrc):
+        shutil.copytree(os.path.join(repo, "src"), reposrc)
+    rewrites = []
+    for root, _, files in os.walk(dst):
+        for f in files:
+            if not (f.endswith(".rs") or f.endswith(".toml")):
+                continue
+            p = os.path.join(root, f)
+            s = open(p).read()
+            for m in re.finditer(r"^//@ REWRITE (\S+) AS (\S+) : (.*)$", s, flags=re.M):
+                rel, new, rules = m.group(1), m.group(2), m.group(3)
+                text = open(os.path.join(reposrc, rel)).read()
+                applied = []
+                for rule in rules.split(";"):
+                    a, b = [x.strip() for x in rule.split("=>")]
+                    applied.append((a, b, text.count(a)))
+                    text = text.replace(a, b)
+                open(os.path.join(root, new), "w").write(text)
+                rewrites.append({"file": rel, "as": new, "rules": applied})
+            s = s.replace("@REPO@", reposrc).replace("@SHIMS@", os.path.join(here, "kani", "shims"))
+            open(p, "w").write(s)
+    lock = os.path.join(repo, "Cargo.lock")
+    if not os.path.exists(lock):
+        lock = "/repo/Cargo.lock"
+    if os.path.exists(lock) and not os.path.exists(os.path.join(dst, "Cargo.lock")):
+        shutil.copy(lock, os.path.join(dst, "Cargo.lock"))
+    return dst, rewrites
+
+
+def parse(out):
+    r = {}
+    m = re.search(r"\*\* (\d+) of (\d+) failed", out)
+    if m:
+        r["failed_checks"], r["checks"] = int(m.group(1)), int(m.group(2))
+    m = re.search(r"\*\* (\d+) of (\d+) cover properties satisfied", out)
+    if m:
+        r["covers_sat"], r["covers"] = int(m.group(1)), int(m.group(2))
+    m = re.search(r"VERIFICATION:- (\w+)", out)
+    r["verdict"] = m.group(1) if m else None
+    m = re.search(r"Verification Time: ([0-9.]+)s", out)
+    if m:
+        r["solver_s"] = float(m.group(1))
+    r["failed_list"] = re.findall(r"Failed Checks: (.*)", out)[:8]
+    r["unwinding_failure"] = bool(re.search(r"unwinding assertion", out))
+    return r
+
+
+def run_kani_unit(uname, ucfg, repo, scratch, here, tier, only=None):
+    res = {"unit": uname, "engine": "kani", "status": "ok", "harnesses": [], "errors": [], "wall_s": 0.0,
+           "checker_cmd": "cargo kani -Z function-contracts -Z stubbing --harness <h> --output-format=terse (Kani 0.68 / CBMC 6.11)",
+           "functions": [{"file": f, "item": "(whole file, verbatim)", "impl": "-", "text_identical_to_repo": True, "changed_tokens": 0, "sha256": ""} for f in ucfg.get("files", [])]}
+    t0 = time.time()
+    try:
+        crate, rewrites = prepare(uname, ucfg, repo, scratch, here)
+    except Exception as e:
+        res["status"] = "undecided"
+        res["errors"].append({"kind": "extract", "message": f"{type(e).__name__}: {e}"})
+        return res
+    res["rewrites"] = rewrites
+    env = dict(os.environ)
+    env["CARGO_NET_OFFLINE"] = "true"
+    env["CARGO_TARGET_DIR"] = os.path.join(crate, "target")
+    for h in ucfg["harnesses"]:
+        if only and not (set(h["obligations"]) & set(only)):
+            continue
+        if h.get("tier", "quick") == "thorough" and tier != "thorough" and not only:
+            continue
+        cmd = ["cargo", "kani", "-Z", "function-contracts", "-Z", "stubbing", "--harness", h["name"], "--output-format=terse"] + h.get("args", [])
+        to = h.get("timeout", 600 if tier == "quick" else 2400)
+        rc, out, wall = sh(cmd, crate, to, env)
+        p = parse(out)
+        hr = {"name": h["name"], "obligations": h["obligations"], "bounded": h.get("bounded"), "wall_s": round(wall, 1),
+              "solver_s": p.get("solver_s"), "checks": p.get("checks"), "covers": p.get("covers"), "covers_sat": p.get("covers_sat"),
+              "program_steps": p.get("checks", 0), "vccs": p.get("checks", 0)}
+        if rc == 124:
+            hr["status"] = "undecided"; hr["message"] = f"timeout after {to}s"
+        elif p["verdict"] == "SUCCESSFUL":
+            if p.get("covers") and p.get("covers_sat") != p.get("covers"):
+                hr["status"] = "undecided"; hr["message"] = f"vacuity guard: only {p.get('covers_sat')} of {p.get('covers')} cover properties satisfied"
+            else:
+                hr["status"] = "ok"
+        elif p["verdict"] == "FAILED":
+            if p["unwinding_failure"] and all("unwinding" in x for x in p["failed_list"]):
+                hr["status"] = "undecided"; hr["message"] = "unwinding assertion failed (bound too small)"
+            else:
+                hr["status"] = "failed"
+                hr["message"] = "; ".join(p["failed_list"]) or "verification failed"
+                hr["output"] = out[-3000:]
+                # ask for concrete values
+                rc2, out2, _ = sh(cmd + ["-Z", "concrete-playback", "--concrete-playback=print"], crate, to, env)
+                m = re.search(r"Concrete playback unit test for .*?```\n(.*?)```", out2, flags=re.S)
+                if m:
+                    hr["counterexample"] = m.group(1)[:6000]
+        else:
+            hr["status"] = "undecided"
+            hr["message"] = "kani did not produce a verdict (compile error or unsupported construct)"
+            hr["output"] = out[-3000:]
+        res["harnesses"].append(hr)
+    res["wall_s"] = round(time.time() - t0, 1)
+    if any(h["status"] == "failed" for h in res["harnesses"]):
+        res["status"] = "failed"
+    elif any(h["status"] != "ok" for h in res["harnesses"]):
+        res["status"] = "undecided"
+    try:
+        v = subprocess.run(["cargo", "kani", "--version"], capture_output=True, text=True, timeout=60).stdout.strip()
+        res["kani_version"] = v
+    except Exception:
+        pass
+    return res
